@@ -2,6 +2,9 @@ package main
 
 import (
 	"bufio"
+	"io"
+
+	"github.com/goreleaser/nfpm/v2/deprecation"
 	"encoding/json"
 	"flag"
 	"fmt"
@@ -44,6 +47,7 @@ func main() {
 		os.Exit(2)
 	}
 	prop := os.Args[1]
+	deprecation.Noticer = io.Discard
 	fl := flag.NewFlagSet(prop, flag.ExitOnError)
 	tier := fl.String("tier", "quick", "quick|thorough")
 	seed := fl.Int64("seed", 1, "PRNG seed")
@@ -73,6 +77,8 @@ func main() {
 	switch prop {
 	case "C05":
 		cmdC05(*tier, *seed, *out, *stats, *replay)
+	case "PKG", "C01", "C03", "C04", "C08", "C09":
+		cmdPkg(prop, *tier, *seed, *out, *stats, *replay)
 	default:
 		fmt.Fprintln(os.Stderr, "unknown property", prop)
 		os.Exit(2)
